@@ -808,7 +808,7 @@ func (eng *Engine) VerifyFunc(fn *ssa.Function, opts ExecOpts) (rep *FuncReport)
 		v := fx.freshVal(p.Type(), "in."+p.Name())
 		fx.bornAtEntry(v)
 		fr.regs[p] = v
-		fx.addInputs("in."+p.Name(), v)
+		fx.describeInput(st, "in."+p.Name(), v, p.Type(), 2)
 		if i == 0 && fn.Signature.Recv() != nil {
 			recv = v
 			if pv, ok := v.(PtrV); ok {
